@@ -4,6 +4,8 @@ the state the properties talk about; each call is recorded in the ghost effect l
 The bodies of SupervisorProxyServer.get_proxy / push_* are verified separately (C13)."""
 from pyvc.spec import *
 
+GROUP = 'members'   # contracts of one group use each other's contracts at call sites (pyvc/hooks.py contract_for_call)
+
 
 @contract('internal_com.rpchandler:RpcHandler.send_state_event', props=[])
 class SendStateEvent:
